@@ -119,11 +119,6 @@ def _tl_case(draw):
         return draw(_ctx_chain())
     if draw(st.integers(0, 11)) == 0:
         return draw(_presolve_family())
-    if draw(st.integers(0, 15)) == 0:
-        # a mined solver-hard system (satisfiable), some of its rows moved to the context
-        terms, w, row = draw(gens.lp_hard_s())
-        k = draw(st.integers(0, len(terms) - 1))
-        return {"kind": "tl", "terms": terms[k:], "ctx": terms[:k] or None, "planted": ["lp-hard"], "numclass": "wide"}
     nv = draw(st.integers(1, 5))
     pool = P[:nv]
     numclass = draw(st.sampled_from(["small", "small", "small", "decimal", "wide"]))
@@ -230,6 +225,20 @@ def _contract_case(draw):
         planted.append("chain-via-assumptions")
     return {"kind": "contract", "c": c, "planted": planted, "numclass": "small",
             "via": draw(st.sampled_from(["constructor", "simplify-method"]))}
+
+
+def lp_hard_cases(entry):
+    """simplification queries derived from one mined solver-hard system (satisfiable) under each of the 8 sign patterns: the first
+    k rows are the context, the rest the list"""
+    for signs in gens.LP_SIGNS:
+        terms, w = gens.lp_hard_system(entry, signs)
+        for k in range(len(terms)):
+            yield {"kind": "tl", "terms": terms[k:], "ctx": terms[:k] or None, "planted": ["lp-hard"], "numclass": "wide", "src": entry.get("file")}
+
+
+def enumerate_cases(tier):
+    for e in gens.lp_hard_corpus():
+        yield from lp_hard_cases(e)
 
 
 def strategy(tier):
